@@ -24,7 +24,12 @@ META = {
                   "faulty service (start/run/exit/stop) x stop requests at any time: StartAfterDeps, StopAfterDependants, FailurePropagates, no deadlock "
                   "short of 'everything stopped'. Real wrappers run under testing/synctest (scripted latencies, failures, stop at every tick, late / never "
                   "started wrappers, random DAGs up to 12 modules); every StartAsync/StopAsync the wrapper issues is logged synchronously with a snapshot "
-                  "of all states and TLC evaluates the same clauses on every event.",
+                  "of all states and TLC evaluates the same clauses on every event. A second scenario family runs all wrappers under one services.Manager whose "
+                  "failure listener stops everything on the first failure (start/run/stop failure, self-exit, modules.ErrStopProcess): same clauses plus "
+                  "FailureIsReported / StopProcessReported. Thorough tier also: spec self-tests (the pre-fix code as a model - self-edge accepted (F3), "
+                  "stop not awaiting a Stopping service (F8) - must be REFUTED by TLC, else exit 2), liveness (Termination, FailurePropagatesLive under weak "
+                  "fairness), and ModuleOptions.tla: every sequence of <=3 RegisterModule calls with visibility options replayed against "
+                  "IsUserVisibleModule / IsTargetableModule / IsModuleRegistered / UserVisibleModuleNames.",
     "level_note": "Trusted: TLC; the observation points (obsService around the module's service, the scripted start/run/stop functions) and the "
                   "State() snapshots taken under one mutex; services.BasicService itself (C17). The run-time direction is record/validate with a "
                   "monitor (clauses evaluated on every event), not a refinement replay of every wrapper step; exhaustive interleavings exist only in the "
@@ -54,6 +59,16 @@ def _check_cov(ctx, r, what):
         _incon("%s: actions never taken (vacuity): %s" % (what, ", ".join(sorted(set(zero)))))
 
 
+def selftest(ctx, W, module, cfg, expect, what):
+    """The code as it was BEFORE a dskit fix, as a model: TLC must refute the property (otherwise the
+    specification has lost its teeth - inconclusive, never a verdict about the code)."""
+    r = ctx.tlc("modules", module, cfg=cfg, timeout=1200, workers=min(W, 4), count=False)
+    if r.timed_out or r.error or r.violated not in expect:
+        _incon("self-test %s: TLC was expected to refute %s on the %s, got violated=%s error=%s" % (
+            cfg, "/".join(expect), what, r.violated, (r.error or "")[:200]))
+    ctx.extra.setdefault("selftests_refuted", []).append("%s: %s" % (cfg, r.violated))
+
+
 def graph_part(ctx, W):
     quick = ctx.tier == "quick"
     # --- the property on the specification, and the DAG cases -------------------------------------
@@ -69,6 +84,8 @@ def graph_part(ctx, W):
             if r.emitted == 0:
                 _incon("%s emitted no DAG" % cfg)
             cases.append(r.out_path)
+    if not quick:
+        selftest(ctx, W, "Modules", "MC_selftest_preF3.cfg", ("CycleRejected",), "pre-7655698 cycle check (F3: self-edge accepted)")
     want = {"quick": 543, "thorough": 29281}[ctx.tier]
     ncases = sum(1 for p in cases for _ in open(p))
     if ncases != want:
@@ -125,6 +142,18 @@ def graph_part(ctx, W):
     ctx.extra["graph_observations"] = nobs
 
 
+def options_part(ctx, W):
+    """Registration options (visibility / targetability): every sequence of <= 3 registrations, replayed."""
+    r = ctx.tlc("modules", "ModuleOptions", cfg="MC_options.cfg", timeout=1200, workers=min(W, 4))
+    ctx.require_tlc_ok(r, "MC_options.cfg")
+    if r.emitted == 0:
+        _incon("MC_options.cfg emitted no case")
+    res = ctx.run_harness("c18", "^TestOptions$", env={"VERIF_IN": r.out_path}, timeout=1200)
+    if res.get("cases") != r.emitted:
+        _incon("harness replayed %s of %d registration sequences" % (res.get("cases"), r.emitted))
+    ctx.absorb(res, "registration options")
+
+
 def runtime_part(ctx, W):
     quick = ctx.tier == "quick"
     cfgs = ["MC_run_quick.cfg"] if quick else \
@@ -134,6 +163,9 @@ def runtime_part(ctx, W):
         ctx.require_tlc_ok(r, cfg)
         if cfg == "MC_run_late2.cfg":
             _check_cov(ctx, r, cfg)
+    if not quick and "nomc" not in DEV:
+        selftest(ctx, W, "MCRun", "MC_selftest_preF8.cfg", ("StopOrderState", "StopAfterDependants"),
+                 "pre-fe293af moduleService.stop (F8: wrapper terminal while its service is still stopping)")
     trace = ctx.path("runtime_trace.ndjson")
     res = ctx.run_harness("c18", "^TestRuntime$", env={"VERIF_TRACE": trace}, timeout=7200)
     ctx.absorb(res, "run-time recording")
@@ -178,7 +210,8 @@ def run(ctx):
     ctx.rule = ("graph part: one case = one labelled DAG emitted by TLC (all 543 on 4 modules / all 29 281 on 5), replayed 3x with seeded edge order, "
                 "module kinds and target orders, every cycle-closing edge tried, every target subset initialised; non-trivial = the DAG has an edge; "
                 "plus random DAGs on 5..12 modules. run-time part: one case = one recorded run (graph shape x module kinds x faulty service x "
-                "latencies x start/stop plan, stop at every tick up to the horizon); non-trivial = the graph has an edge and a wrapper told its service to stop")
+                "latencies x start/stop plan, stop at every tick up to the horizon; or the same under one services.Manager with stop-on-first-failure); "
+                "non-trivial = the graph has an edge and a wrapper told its service to stop. thorough: + one case per registration sequence (ModuleOptions)")
     ctx.assumptions = ["observation points: obsService wrapper around each module service and the scripted start/run/stop functions; State() snapshots under one mutex",
                        "services.BasicService behaves as specified (C17)",
                        "real wrappers are sampled at tick granularity under testing/synctest; exhaustive interleavings only in the model"]
@@ -188,6 +221,8 @@ def run(ctx):
         ctx.inconclusive_note("VERIF_C18_DEV=%s: parts of the check were skipped" % ",".join(sorted(DEV)))
     if "runtime" not in DEV:
         graph_part(ctx, W)
+        if ctx.tier != "quick":
+            options_part(ctx, W)
     if "graph" not in DEV:
         runtime_part(ctx, W)
     return "model_checking"
